@@ -23,17 +23,12 @@ THEOREMS = [
     "Determinism.pageUrl_invariant", "Determinism.rootSymlink_invariant", "Determinism.rootSymlink_no_indexError",
     "Determinism.hasIndexPage_invariant", "Determinism.rootUnknown_invariant", "Determinism.popSingle_invariant",
     "Determinism.rootKinds_invariant",
-    "Determinism.projectname_invariant_partial", "Determinism.projectname_counterexample",
-    "Determinism.projectname_depends_on_enumeration",
+    "Determinism.projectname_invariant", "Determinism.projectName_eq_old",
+    "Determinism.projectname_counterexample_old", "Determinism.projectname_old_depends_on_enumeration",
     "Determinism.keyed_writes_invariant", "Determinism.run_writes_through", "Determinism.run_characterization",
     "Determinism.rerun_idempotent", "Determinism.output_independent_of_old_content",
 ]
 PARTIAL = {
-    "Determinism.projectname_invariant_partial":
-        "full statement (the guessed project name is independent of the enumeration of System.root_names) is false of "
-        "driver.get_system; proved under: --project-name given, or at most one root. Excluded inputs: several roots and "
-        "no --project-name (Determinism.projectname_counterexample / projectname_depends_on_enumeration show the "
-        "dependence for ANY two distinct root names); the direct oracle runs them and reports hashseed:project-name-guess",
     "Determinism.rerun_idempotent":
         "hypothesis wfRun: the name that becomes the root symlink (<root>.html) is not written after the link is made, and "
         "either not before it, or the link target (index.html) is rewritten afterwards and differs from it (covers a single "
@@ -67,9 +62,10 @@ ASSUMPTIONS = [
     "different builds of one project use different absolute output paths (they run in parallel); pydoctor does not "
     "write the output path into the output",
 ]
-EXPLANATION = ("Theorems: every catalogued set-iteration site except the project-name guess is invariant under the "
-               "enumeration, sorted traversal is invariant under the listing order, a re-run into the previous result is "
-               "the identity. The property itself is decided by the byte comparison of real builds.")
+EXPLANATION = ("Theorems: every catalogued set-iteration site - the project-name guess included since /repo f35e237 sorts the "
+               "root names - is invariant under the enumeration, sorted traversal is invariant under the listing order, a "
+               "re-run into the previous result is the identity. The property itself is decided by the byte comparison of "
+               "real builds. projectNameOld / projectname_counterexample_old record the pre-fix behaviour (historical).")
 TRUSTED = ["sha-256 equality stands for byte equality of files"]
 
 EPOCH = 1000000000
